@@ -82,7 +82,9 @@ def apply_history(rng, tree, hist_cb):
     work = [r for r in tree.walk(Routine) if r.name == "work"][0]
     accepted = []
     for _ in range(rng.randint(1, 4)):
-        name = rng.choice(sorted(tr))
+        adders = [n for n in ("ChunkLoopTrans", "LoopTiling2DTrans", "HoistLoopBoundExprTrans", "ArrayAssignment2LoopsTrans",
+                              "Reference2ArrayRangeTrans", "InlineTrans") if n in tr]
+        name = rng.choice(adders) if rng.random() < 0.7 else rng.choice(sorted(tr))
         loops = work.walk(Loop)
         target = None
         opts = {}
@@ -91,6 +93,10 @@ def apply_history(rng, tree, hist_cb):
             if not loops:
                 continue
             target = rng.choice(loops)
+            if name in ("LoopTiling2DTrans", "LoopSwapTrans"):
+                outer = [lp for lp in loops if lp.loop_body.children and isinstance(lp.loop_body.children[0], Loop)]
+                if outer:
+                    target = rng.choice(outer)
             if name == "ChunkLoopTrans":
                 opts = {"chunksize": rng.choice([2, 4, 8])}
             if name == "LoopTiling2DTrans":
